@@ -23,7 +23,7 @@ def obsOf (st : St) : Act → List Obs
       | .pending c => [.resp s c k w]
       | _ => []
   | .deliver s => match st.wire s with
-      | .answered c k w => match st.owner s with
+      | .answered _ k w => match st.owner s with
           | some d => if st.pc d = .waiting s then [.got d k w] else []
           | none => []
       | _ => []
